@@ -976,8 +976,23 @@ class Explorer:
     def read_sub(self, s: State, b, i):
         if isinstance(b, TupleVal):
             c = i.const_value() if isinstance(i, RF) else None
-            if c is not None and c.denominator == 1 and 0 <= int(c) < len(b.items):
+            if c is not None and c.denominator == 1 and -len(b.items) <= int(c) < len(b.items):
                 return b.items[int(c)]
+            sa = i.single_atom() if isinstance(i, RF) else None
+            if isinstance(sa, tuple) and len(sa) == 4 and sa[0] == 'slice':
+                # a constant slice of a list display: the display of the selected items
+                idx = []
+                for k_ in sa[1:]:
+                    if k_ == NONE:
+                        idx.append(None)
+                        continue
+                    cv = rf_of_key(k_).const_value()
+                    if cv is None or cv.denominator != 1:
+                        idx = None
+                        break
+                    idx.append(int(cv))
+                if idx is not None and idx[2] != 0:
+                    return TupleVal(list(b.items[slice(*idx)]), b.kind)
         if isinstance(b, CompVal) and b.lam is None:
             return b.elt
         bk, ik = key_of(b), key_of(i)
@@ -1411,6 +1426,15 @@ class Explorer:
             return args[0]
         if dotted == 'builtins.range':
             return atomv(('range',) + tuple(key_of(a) for a in args))
+        if dotted == 'builtins.zip' and n >= 1 and not kwargs and all(isinstance(a, TupleVal) for a in args):
+            m_ = min(len(a.items) for a in args)
+            return TupleVal([TupleVal([a.items[j] for a in args], 'tuple') for j in range(m_)], 'list')
+        if dotted == 'builtins.enumerate' and n == 1 and not kwargs and isinstance(args[0], TupleVal):
+            return TupleVal([TupleVal([RF.const(j), x], 'tuple') for j, x in enumerate(args[0].items)], 'list')
+        if dotted in ('builtins.list', 'builtins.tuple') and n == 1 and isinstance(args[0], TupleVal):
+            return TupleVal(list(args[0].items), 'list' if dotted.endswith('list') else 'tuple')
+        if dotted == 'builtins.reversed' and n == 1 and isinstance(args[0], TupleVal):
+            return TupleVal(list(reversed(args[0].items)), 'list')
         if dotted == 'builtins.map' and n == 2 and isinstance(args[0], LambdaVal) and not kwargs and \
                 len(args[0].node.args.args) == 1 and not isinstance(args[1], (TupleVal, CompVal)):
             return CompVal(None, args[1], getattr(e, 'lineno', 0), lam=args[0])
